@@ -33,6 +33,12 @@ RULE = ('Also: the peer resets while replies are queued and a listener '
         '(X4); a later connect() succeeds and reaches play (X5). '
         'Non-trivial: chain >= 2 with a non-matching and a raising handler, '
         'or a raising final handler; distinct by (origin, chain, final).')
+RULE += (' ' +
+         'Added in later rounds: a bystander Connection; peer reset with '
+         'replies queued; a final handler that is a falsy callable; a final '
+         'handler that uninstalls itself while running; a handler that '
+         'queues a farewell and calls the plain disconnect() (the farewell '
+         'must reach the server). ')
 LEVEL_TEXT = ('Enumeration of fault origins x handler-chain configurations '
               '(complete for chains up to length 2 over a 6-class hierarchy) '
               'against a reference model of the documented try/except '
